@@ -164,7 +164,10 @@ SvcCode(r) == CASE r.svc = "read" -> 76 [] r.svc = "readf" -> 82 [] r.svc = "wri
                 [] r.svc = "gas" -> 14 [] r.svc = "sas" -> 16 [] r.svc = "multi" -> 10
 
 ReqPath(C, r) ==
-  LET base == IF r.tag = 0 THEN <<SymSeg(UnknownName)>>
+  \* an unknown destination: a name no tag has, an instance the Message Router class does not have, a class nobody has (the
+  \* attribute number 1 exists in @2/1: the request must not be served from there)
+  LET base == IF r.tag = 0 THEN (IF r.mode = "noinst" THEN CIASegs(<<2, 7, 1>>) ELSE IF r.mode = "noclass" THEN CIASegs(<<119, 1, 1>>)
+                                 ELSE <<SymSeg(UnknownName)>>)
               ELSE IF r.mode = "sym" THEN <<SymSeg(C.tags[r.tag].name)>> ELSE CIASegs(C.tags[r.tag].cia)
   IN IF r.idx >= 0 THEN base \o <<ElemSeg(r.idx)>> ELSE base
 
